@@ -24,9 +24,22 @@ structure SemCase where
   names : List (Nat × String)
   mysql : Bool
 
+/-- columns the generator's own migration removed are removed from the oracle's catalog whatever sqlc's
+catalog says (a column sqlc wrongly kept must not make the oracle accept the query) -/
+def dropGone (c : Cat) (gone : List (String × String)) : Cat :=
+  { c with schemas := c.schemas.map (fun sch =>
+      if sch.name != c.defaultSchema then sch else
+      { sch with tables := sch.tables.map (fun t =>
+          { t with cols := t.cols.filter (fun col => !gone.contains (t.name, col.name)) }) }) }
+
+def readGone (inp : Json) : List (String × String) :=
+  (jarr inp "gone").filterMap (fun p => match p with
+    | .arr #[.str t, .str c] => some (t, c)
+    | _ => none)
+
 def readSemCase (inp impl : Json) : SemCase :=
   let engine := jstr inp "engine"
-  { cat := readCat (jobj inp "catalog") engine, src := readNode (jobj inp "ast"),
+  { cat := dropGone (readCat (jobj inp "catalog") engine) (readGone inp), src := readNode (jobj inp "ast"),
     emb := if jhas impl "embAst" then some (readNode (jobj impl "embAst")) else none,
     names := (jarr inp "names").filterMap (fun p => match p with
       | .arr #[n, .str s] => some ((n.getNat?.toOption.getD 0), s)
@@ -238,12 +251,19 @@ def specC06 (inp impl : Json) : String :=
     let params := implParams impl
     let go := jobj impl "go"
     let env := readTypeEnv (jobj inp "env")
+    let firstLoc (n : Nat) : Option Int :=
+      ((sc.src.search (fun x => x.isKind "ParamRef" && (x.get "Number").natVal == n)).map (fun x => (x.get "Location").intVal)).min?
+    -- a number used both as a row count and as a column value is ill-typed in the database: not judged
+    let inLimit (n : Nat) : Bool := (sc.src.search (fun x => stmtKinds.contains x.kind)).any (fun st =>
+      countParam n (st.get "LimitCount") + countParam n (st.get "LimitOffset") > 0)
     let bad := sem.pairs.filterMap (fun p =>
       match p.col with
       | .error _ => none
       | .ok ci =>
-        -- a placeholder used in several places has no single column to follow: only single-use ones are judged
-        if countParam p.number sc.src != 1 then none else
+        -- a placeholder used in several places takes its type where it occurs FIRST in the text (as the
+        -- database does); later occurrences are not judged, nor is a placeholder whose first occurrence is
+        -- not a column pairing
+        if countParam p.number sc.src != 1 && (firstLoc p.number != some p.loc || inLimit p.number) then none else
         match (params.zipIdx).find? (fun (pj, _) => jnat pj "number" == p.number) with
         | none => none                 -- dropped parameters are C03's business
         | some (pj, k) =>
@@ -264,7 +284,7 @@ def specC06 (inp impl : Json) : String :=
     | [] =>
       -- LIMIT / OFFSET placeholders
       let stmt := if sc.src.isKind "RawStmt" then sc.src.get "Stmt" else sc.src
-      let lim := [stmt.get "LimitCount", stmt.get "LimitOffset"].filterMap paramOf
+      let lim := ([stmt.get "LimitCount", stmt.get "LimitOffset"].filterMap paramOf).map (·.1)
       let lbad := lim.filterMap (fun n =>
         if countParam n sc.src != 1 then none else
         match (params.zipIdx).find? (fun (pj, _) => jnat pj "number" == n) with
